@@ -107,6 +107,13 @@ type Op struct {
 	N    int   `json:"n,omitempty"`    // bulk count / Range: stop after N visits (0 = never stop)
 	Park bool  `json:"park,omitempty"` // user function calls vs.Park() (C16)
 	On   bool  `json:"on,omitempty"`   // SetEvictedCallback: install (true) / remove (false)
+	Muts []Mut `json:"muts,omitempty"` // Range: calls the visitor makes on the same container (C07)
+}
+
+// Mut is a call made from inside a Range visitor at its At-th invocation (0-based).
+type Mut struct {
+	At int `json:"at"`
+	Op Op  `json:"op"`
 }
 
 type KV struct {
@@ -163,10 +170,14 @@ func (o Op) String() string {
 	case CCompute:
 		return fmt.Sprintf("%s(k%d,%s->%d%s,%s)", o.K, o.Key, fnStr(o.Fn), o.Val, parkStr(o.Park), ttlStr(o.D))
 	case MRange, CRange:
+		x := ""
 		if o.N > 0 {
-			return fmt.Sprintf("%s(stop@%d)", o.K, o.N)
+			x = fmt.Sprintf("stop@%d", o.N)
 		}
-		return fmt.Sprintf("%s()", o.K)
+		for _, mu := range o.Muts {
+			x += fmt.Sprintf(" @%d:%s", mu.At, mu.Op.String())
+		}
+		return fmt.Sprintf("%s(%s)", o.K, x)
 	case CSetDefaultExp:
 		return fmt.Sprintf("%s(%s)", o.K, ttlStr(o.D))
 	case CSetCallback:
